@@ -164,11 +164,12 @@ inductive Out (α : Type) where
   | val (v : α)
   | raise            -- ValueError
   | error            -- numpy.linalg.LinAlgError escaping from `solve`
+  | fraise           -- the wrapped function raised; its exception propagates out of `evaluate`
   deriving Repr
 
 /-- behaviour of the wrapped function and of the float environment -/
 structure Env (α P : Type) where
-  f : P → α
+  f : P → Option α    -- `none`: the wrapped function raises at that point
   isnan : α → Bool
   nan : α
   norm : α → α        -- value normalisation applied when a sample is stored
@@ -177,17 +178,20 @@ section
 variable {α P ν κ C : Type} [DecidableEq ν] [DecidableEq κ]
 
 /-- the `for u in range(i-1, i+3): if isnan(data[u]): value = f(node u); if not isnan(value): data[u] = norm value`
-loop; returns the new data and the calls made (in order) -/
-def sample (S : Spec α P ν κ C) (E : Env α P) : List ν → List (ν × α) → List (ν × α) × List P
-  | [], d => (d, [])
+loop; returns the new data, the calls made (in order) and whether the loop ran to its end.  When the wrapped function
+raises the exception leaves the loop at once: the samples stored so far stay, the remaining nodes are not visited. -/
+def sample (S : Spec α P ν κ C) (E : Env α P) : List ν → List (ν × α) → List (ν × α) × List P × Bool
+  | [], d => (d, [], true)
   | u :: us, d =>
     match lookup u d with
     | some _ => sample S E us d
     | none =>
-      let v := E.f (S.coord u)
-      let d' := if E.isnan v then d else (u, E.norm v) :: d
-      let r := sample S E us d'
-      (r.1, S.coord u :: r.2)
+      match E.f (S.coord u) with
+      | none => (d, [S.coord u], false)
+      | some v =>
+        let d' := if E.isnan v then d else (u, E.norm v) :: d
+        let r := sample S E us d'
+        (r.1, S.coord u :: r.2.1, r.2.2)
 
 /-- what `data_view[u]` reads -/
 def readNode (E : Env α P) (d : List (ν × α)) (u : ν) : α := (lookup u d).getD E.nan
@@ -196,17 +200,26 @@ def readNode (E : Env α P) (d : List (ν × α)) (u : ν) : α := (lookup u d).
 def evalStep (S : Spec α P ν κ C) (E : Env α P) (noBoundaryError : Bool) (st : St α ν κ C) (p : P) :
     St α ν κ C × Out α × List P :=
   match S.locate p with
-  | none => if noBoundaryError then (st, .val (E.f p), [p]) else (st, .raise, [])
+  | none =>
+    if noBoundaryError then
+      match E.f p with
+      | some v => (st, .val v, [p])
+      | none => (st, .fraise, [p])
+    else (st, .raise, [])
   | some c =>
     match lookup c st.coeffs with
     | some co => (st, .val (S.poly co p), [])
     | none =>
       let r := sample S E (S.stencil c) st.data
-      let vals := (S.stencil c).map (readNode E r.1)
-      -- the samples stay in `data_view` even when `solve` raises; `calculated` is only set after a successful solve
-      match S.build c vals with
-      | some co => ({ data := r.1, coeffs := (c, co) :: st.coeffs }, .val (S.poly co p), r.2)
-      | none => ({ data := r.1, coeffs := st.coeffs }, .error, r.2)
+      if r.2.2 then
+        let vals := (S.stencil c).map (readNode E r.1)
+        -- the samples stay in `data_view` even when `solve` raises; `calculated` is only set after a successful solve
+        match S.build c vals with
+        | some co => ({ data := r.1, coeffs := (c, co) :: st.coeffs }, .val (S.poly co p), r.2.1)
+        | none => ({ data := r.1, coeffs := st.coeffs }, .error, r.2.1)
+      else
+        -- the wrapped function raised while sampling: nothing is calculated or flagged for this cell
+        ({ data := r.1, coeffs := st.coeffs }, .fraise, r.2.1)
 
 /-- state after a history of evaluations -/
 def run (S : Spec α P ν κ C) (E : Env α P) (nbe : Bool) (st : St α ν κ C) (ps : List P) : St α ν κ C :=
@@ -214,17 +227,25 @@ def run (S : Spec α P ν κ C) (E : Env α P) (nbe : Bool) (st : St α ν κ C)
 
 /-- the value a node contributes, independent of any state -/
 def nodeVal (S : Spec α P ν κ C) (E : Env α P) (u : ν) : α :=
-  let v := E.f (S.coord u)
-  if E.isnan v then E.nan else E.norm v
+  match E.f (S.coord u) with
+  | some v => if E.isnan v then E.nan else E.norm v
+  | none => E.nan
 
 /-- history-free specification of `evaluate` -/
 def evalPure (S : Spec α P ν κ C) (E : Env α P) (nbe : Bool) (p : P) : Out α :=
   match S.locate p with
-  | none => if nbe then .val (E.f p) else .raise
+  | none =>
+    if nbe then
+      match E.f p with
+      | some v => .val v
+      | none => .fraise
+    else .raise
   | some c =>
-    match S.build c ((S.stencil c).map (nodeVal S E)) with
-    | some co => .val (S.poly co p)
-    | none => .error
+    if (S.stencil c).all (fun u => (E.f (S.coord u)).isSome) then
+      match S.build c ((S.stencil c).map (nodeVal S E)) with
+      | some co => .val (S.poly co p)
+      | none => .error
+    else .fraise
 
 end
 
